@@ -210,8 +210,10 @@ class Leaf:
 @register_transformer(Leaf)
 def _to_leaf(transformer, data, cls):
     COUNT[0] += 1
-    if data == 'bad':
+    if data == 'bad' or isinstance(data, (list, dict)):
         raise ValueError('bad leaf')
+    if transformer.no_data_loss and isinstance(data, float):
+        raise ValueError('lossy leaf')
     return cls(data)
 
 
@@ -282,3 +284,44 @@ for _k in COST:
        bounds='self-referential data class nested through %s; depth d in 1..6 (8 thorough) solver integer, valid leaf or '
               'a single invalid innermost leaf (solver bool), width 1..2; leaf conversions <= 3*(d+1)*leaves' % _k,
        out='depth > 8: growth is extrapolated, not proved')((lambda k: lambda V: _cost(V, k))(_k))
+
+
+# ------------------------------------------------------------------ statically nested unions (no data class in between)
+STATIC = {}
+
+
+def static_type(k):
+    if k not in STATIC:
+        from utype import Rule
+        t = Leaf
+        for _ in range(k):
+            t = List[Union[Leaf, t]]
+        STATIC[k] = Rule.parse_annotation(t)
+    return STATIC[k]
+
+
+@ob('cost/static-union', marks=['valid', 'invalid', 'lossy'], budget=(60, 200),
+    bounds='T(k+1) = List[Union[Leaf, T(k)]] nested k times, k in 1..10 solver integer; input = k nested one-element lists '
+           'around a valid leaf, an invalid leaf, or a leaf that converts only in the lossy (last) union stage; leaf conversions '
+           '<= (k+1)^3 (the staged retries give a cubic count on the pinned tree: 441 at k=12)',
+    out='k > 10: growth is extrapolated, not proved')
+def cost_static(V):
+    from utype.utils.transform import type_transform
+    K = 10
+    k = V.int('k', 1, K)
+    depth = 1
+    while depth < K and not (k == depth):
+        depth += 1
+    leaf = V.pick('leaf', [1, 'bad', 1.5])
+    with V.notrace():
+        T = static_type(depth)
+    x = leaf
+    for _ in range(depth):
+        x = [x]
+    COUNT[0] = 0
+    r = attempt(type_transform, x, T)
+    n = COUNT[0]
+    limit = (depth + 1) ** 3
+    V.check(n <= limit, 'cost:superpolynomial:static-union',
+            lambda: 'static union nesting k=%d leaf=%r: %d leaf conversions > (k+1)^3 = %d' % (depth, leaf, n, limit))
+    V.cover('valid' if leaf == 1 else 'invalid' if leaf == 'bad' else 'lossy')
